@@ -164,11 +164,14 @@ def path(f, st, depth=0):
             obj = f.s(st["obj"])
             name = c["name"]
             ot = obj.get("t", "") if obj else ""
-            if name == "get" and re.match(r"^(const )?std::(unique_ptr|shared_ptr)<", ot):
+            if name == "get" and re.match(r"^(const )?std::(__)?(unique_ptr|shared_ptr)<", ot):
                 return path(f, obj, depth + 1)
             if name in ("load",) and is_atomic_type(ot):
                 return path(f, obj, depth + 1)
             if c.get("kind") == "conv" and is_atomic_type(ot):
+                return path(f, obj, depth + 1)
+            if c.get("kind") == "conv" and name == "operator bool" and \
+                    re.match(r"^(const )?std::(__)?(unique_ptr|shared_ptr|function)(_access)?<", ot):
                 return path(f, obj, depth + 1)
             if name == "get_deleter":
                 b = path(f, obj, depth + 1)
@@ -983,3 +986,93 @@ def _contains(f, root, st):
         if a["id"] == root["id"]:
             return True
     return False
+
+
+# ------------------------------------------------------------------ atomics
+MO_NAMES = {0: "relaxed", 1: "consume", 2: "acquire", 3: "release", 4: "acq_rel", 5: "seq_cst"}
+_RMW = ("exchange", "fetch_add", "fetch_sub", "fetch_and", "fetch_or", "fetch_xor",
+        "test_and_set", "operator++", "operator--", "operator+=", "operator-=", "operator&=",
+        "operator|=", "operator^=")
+
+
+def _atomic_obj_type(t):
+    t = strip_cvref(t)
+    if t.endswith("*"):
+        t = strip_cvref(t[:-1].strip())
+    if t.endswith(" const"):
+        t = t[:-6]
+    return t
+
+
+def atomic_ops(f):
+    """every operation on a std::atomic object in f:
+    dicts {st, obj (path), op: load|store|rmw|cas, name, order, fail_order, value (stmt)}"""
+    out = []
+    for st in f.stmts.values():
+        k = st["k"]
+        obj = None
+        name = None
+        args = []
+        if k == "CXXMemberCallExpr":
+            obj = f.s(st["obj"])
+            name = (st.get("callee") or {}).get("name")
+            args = [f.s(a) for a in st["args"]]
+            if (st.get("callee") or {}).get("kind") == "conv":
+                name = "operator T"
+        elif k == "CXXOperatorCallExpr" and st["args"]:
+            obj = f.s(st["args"][0])
+            name = "operator" + (st.get("op") or "")
+            args = [f.s(a) for a in st["args"][1:]]
+        else:
+            continue
+        if obj is None or not is_atomic_type(_atomic_obj_type(obj.get("t", ""))):
+            continue
+        c = st.get("callee") or {}
+        if not (c.get("rec", "").startswith("std::atomic") or c.get("rec", "").startswith("std::__atomic")):
+            continue
+        mos = st.get("mo", [])
+        op = None
+        order = 5
+        fail = None
+        value = None
+        if name == "load" or name == "operator T":
+            op = "load"
+            order = mos[0] if mos else 5
+        elif name == "store" or name == "operator=":
+            op = "store"
+            order = mos[0] if mos else 5
+            value = args[0] if args else None
+        elif name in ("compare_exchange_weak", "compare_exchange_strong"):
+            op = "cas"
+            order = mos[0] if mos else 5
+            fail = mos[1] if len(mos) > 1 else None
+            value = args[1] if len(args) > 1 else None
+        elif name in _RMW:
+            op = "rmw"
+            order = mos[0] if mos else 5
+            value = args[0] if args else None
+        elif name in ("is_lock_free", "wait", "notify_one", "notify_all"):
+            continue
+        else:
+            op = "other"
+        p = path(f, obj)
+        out.append(dict(st=st, obj=p, op=op, name=name, order=order, fail_order=fail, value=value,
+                        objtype=_atomic_obj_type(obj.get("t", ""))))
+    return out
+
+
+def mo_at_least(order, floor):
+    """order >= floor in the lattice relaxed < {acquire, release} < acq_rel < seq_cst (consume ~ acquire)"""
+    if order == 1:
+        order = 2
+    if floor == "relaxed":
+        return True
+    if floor == "acquire":
+        return order in (2, 4, 5)
+    if floor == "release":
+        return order in (3, 4, 5)
+    if floor == "acq_rel":
+        return order in (4, 5)
+    if floor == "seq_cst":
+        return order == 5
+    raise ValueError(floor)
